@@ -108,7 +108,13 @@ Section Prog.
     end.
 
   (* statements that compile to no instruction or label: the compiled code cannot wait for their time *)
-  Definition is_silent (s : sstmt) : bool := match s with SScopeEnd _ | SNop => true | _ => false end.
+  Definition no_init (x : nat * option expr) : bool := match snd x with None => true | Some _ => false end.
+  Definition is_silent (s : sstmt) : bool :=
+    match s with
+    | SScopeEnd _ | SNop => true
+    | SDecl _ vars => forallb no_init vars   (* declarations without initialisers: RegAlloc markers only *)
+    | _ => false
+    end.
 
   Definition mode_of (j : option (label * option Z)) : mode :=
     match j with Some (l, jt) => Seek l jt | None => Exec end.
